@@ -48,7 +48,9 @@ class Vdrv(object):
     def start(self):
         self.errf = tempfile.TemporaryFile()
         if self.progf is None:
-            fd, self.progf = tempfile.mkstemp(prefix="vdrv_prog_")
+            pd = os.path.join(os.path.dirname(os.path.dirname(os.path.abspath(__file__))), ".work", "prog")
+            os.makedirs(pd, exist_ok=True)
+            fd, self.progf = tempfile.mkstemp(prefix="p%d_" % os.getpid(), dir=pd)
             os.write(fd, b"\0" * 64)
             os.close(fd)
         env_extra = dict(self.env_extra or {})
